@@ -545,3 +545,81 @@ impl QueryStats {
         }
     }
 }
+
+/// Verification hooks (only with `--cfg libp2p_verif`): access to the peer iterators.
+#[cfg(libp2p_verif)]
+pub(crate) mod verif {
+    use std::num::NonZeroUsize;
+
+    use libp2p_identity::PeerId;
+    use web_time::Instant;
+
+    pub use super::peers::{
+        PeersIterState,
+        closest::{ClosestPeersIter, ClosestPeersIterConfig},
+    };
+    use super::peers::{closest::disjoint::ClosestDisjointPeersIter, fixed::FixedPeersIter};
+    use crate::kbucket::{Key, KeyBytes};
+
+    /// `FixedPeersIter`.
+    pub struct FixedIter(FixedPeersIter);
+
+    impl FixedIter {
+        pub fn new(peers: Vec<PeerId>, parallelism: NonZeroUsize) -> Self {
+            FixedIter(FixedPeersIter::new(peers, parallelism))
+        }
+        pub fn next(&mut self) -> PeersIterState<'_> {
+            self.0.next()
+        }
+        pub fn on_success(&mut self, peer: &PeerId) -> bool {
+            self.0.on_success(peer)
+        }
+        pub fn on_failure(&mut self, peer: &PeerId) -> bool {
+            self.0.on_failure(peer)
+        }
+        pub fn finish(&mut self) {
+            self.0.finish()
+        }
+        pub fn is_finished(&self) -> bool {
+            self.0.is_finished()
+        }
+        pub fn into_result(self) -> Vec<PeerId> {
+            self.0.into_result().collect()
+        }
+    }
+
+    /// `ClosestDisjointPeersIter`.
+    pub struct DisjointIter(ClosestDisjointPeersIter);
+
+    impl DisjointIter {
+        pub fn with_config(
+            config: ClosestPeersIterConfig,
+            target: KeyBytes,
+            known_closest_peers: Vec<Key<PeerId>>,
+        ) -> Self {
+            DisjointIter(ClosestDisjointPeersIter::with_config(
+                config,
+                target,
+                known_closest_peers,
+            ))
+        }
+        pub fn next(&mut self, now: Instant) -> PeersIterState<'_> {
+            self.0.next(now)
+        }
+        pub fn on_success(&mut self, peer: &PeerId, closer_peers: Vec<PeerId>) -> bool {
+            self.0.on_success(peer, closer_peers)
+        }
+        pub fn on_failure(&mut self, peer: &PeerId) -> bool {
+            self.0.on_failure(peer)
+        }
+        pub fn finish(&mut self) {
+            self.0.finish()
+        }
+        pub fn is_finished(&self) -> bool {
+            self.0.is_finished()
+        }
+        pub fn into_result(self) -> Vec<PeerId> {
+            self.0.into_result().collect()
+        }
+    }
+}
